@@ -972,6 +972,9 @@ func Eval(p *Program, w *World) (out Outcome) {
 				if err != nil {
 					return fail(err)
 				}
+				if v.N.Sign() < 0 {
+					return fail(anyErr("save of a negative amount")) // cannot mean "give the account more to spend"
+				}
 				s.addBal(a.S, v.Asset, new(big.Int).Neg(v.N))
 			} else {
 				as, _ := s.eval(stm.AllAsset)
